@@ -49,7 +49,7 @@ SIZES = [(10.0, 10.0), (0.5, 3.0)]
 
 
 def bounds(tier):
-    return {"geometry": "1x2 (histories), 2x3 (binning)", "history_length": "<= 3 (+ final read)", "clusters_per_add": "1..2",
+    return {"geometry": "1x2 (histories), 2x3 (binning)", "history_length": "<= 3 plus 27 reset-in-the-middle histories of length 4 (quick); all of length <= 4 (thorough); + final read", "clusters_per_add": "1..2",
             "pixel_sizes": "symbolic > 0 (binning, 1 cluster) and concrete " + str(SIZES)}
 
 
@@ -65,6 +65,11 @@ def tasks(tier, seed):
     hists = ["".join(h) for L in (1, 2, 3) for h in itertools.product(ops, repeat=L)]
     if tier == "quick":
         hists = [h for h in hists if len(h) <= 2 or h.count("A") + h.count("C") >= 2]
+        # length-4 histories with a reset between two additions and a read somewhere
+        hists += [a + m + "E" + b for a in "AC" for m in "ACR" for b in "AC"] + [a + "E" + b + m for a in "AC" for b in "AC" for m in "ACR"]
+        hists += ["CRER", "ARCE", "CCRE"]
+    else:
+        hists += ["".join(h) for h in itertools.product(ops, repeat=4)]
     for h in hists:
         out.append({"fn": "history", "kwargs": {"ops": h}, "label": f"history/{h}", "caps": {"max_seconds": 200, "max_paths": 4000}})
     out.append({"fn": "centres", "kwargs": {}, "label": "centres/roundtrip"})
